@@ -198,6 +198,36 @@ func (g *kopGen) drawSpread(t *rapid.T, total float64) kop {
 	return kop{Kind: "burst", Burst: vs}
 }
 
+// drawTwoRuns draws two runs of consecutive bins (each bin hit once or twice) separated by a gap of 33..100 empty bins:
+// a dense store encodes the whole extent contiguously, zeros included, and a paginated decoder of that block
+// allocates whole pages that stay empty.
+func (g *kopGen) drawTwoRuns(t *rapid.T, total float64) kop {
+	r1 := rapid.IntRange(20, 60).Draw(t, "run1")
+	gap := rapid.IntRange(33, 100).Draw(t, "rungap")
+	r2 := rapid.IntRange(20, 60).Draw(t, "run2")
+	d := g.dom
+	if !g.bud.Fits(total+float64(2*(r1+r2))) || d.hi-d.lo < r1+gap+r2+2 {
+		return kop{Kind: "addw", V: d.clamp(d.m.Value(d.lo)), W: 0}
+	}
+	lo := rapid.IntRange(d.lo, d.hi-(r1+gap+r2)).Draw(t, "runlo")
+	neg := g.prof.neg && (!g.prof.pos || rapid.Bool().Draw(t, "runneg"))
+	var vs []float64
+	for i := 0; i < r1+gap+r2; i++ {
+		if i >= r1 && i < r1+gap {
+			continue
+		}
+		v := d.clamp(d.m.Value(lo + i))
+		if neg {
+			v = -v
+		}
+		vs = append(vs, v)
+		if rapid.IntRange(0, 3).Draw(t, "runtwice") == 0 {
+			vs = append(vs, v)
+		}
+	}
+	return kop{Kind: "burst", Burst: vs}
+}
+
 // drawBurst draws many unit adds inside a narrow sub-window (what makes the paginated store create pages and compact).
 func (g *kopGen) drawBurst(t *rapid.T, total float64) kop {
 	n := rapid.IntRange(20, 160).Draw(t, "burstn")
@@ -446,6 +476,8 @@ func (g *kopGen) drawOp(t *rapid.T, u *skUT) kop {
 		return g.drawBurst(t, total)
 	case "spread":
 		return g.drawSpread(t, total)
+	case "tworuns":
+		return g.drawTwoRuns(t, total)
 	case "deczeros":
 		// a well-formed stream (documented grammar) whose bins all have count 0, plus possibly a zero-count block of 0:
 		// decoding it must change nothing, whatever memory the stores allocate while reading it
